@@ -181,6 +181,13 @@ fn bases(out_path: &str) {
         t.set_message("MID_B", "あいう");
         t.set_message("MID_C", "");
         put(nm, fam, t.serialize().unwrap());
+        // degenerate archives: no message at all, titles of every alignment class (the data region is the title alone,
+        // so the specification's data cuts end the data inside the title's last, partial word)
+        for title in ["", "A", "ABC", "ABCD", "ABCDEFG"] {
+            let mut t = TextArchive::new(f, e);
+            t.set_title(title.to_string());
+            put(&format!("{}-only-title{}", nm, title.len()), fam, t.serialize().unwrap());
+        }
     }
     // generic bin archives with every kind of annotation
     for (nm, e, fam) in [("bin-mixed-le", "le", "bin_le"), ("bin-mixed-be", "be", "bin_be")] {
